@@ -119,6 +119,13 @@ def show(n, maxlen=160):
     return s
 
 
+def _unblock(e):
+    """`{ expr }` and `expr` are the same closure body / arm value (rustfmt switches between them)."""
+    while is_node(e) and e.get("k") == "block" and len(e["stmts"]) == 1 and e["stmts"][0]["k"] == "expr" and not e["stmts"][0].get("semi") and not e.get("unsafe") and not e.get("label"):
+        e = e["stmts"][0]["e"]
+    return e
+
+
 def _show(n):
     if n is None:
         return ""
@@ -142,7 +149,7 @@ def _show(n):
     if k == "mcall":
         return "%s.%s(%s)" % (_show(n["recv"]), n["m"], _show(n["args"]))
     if k == "closure":
-        return "|%s| %s" % (_show(n["params"]), _show(n["body"]))
+        return "|%s| %s" % (_show(n["params"]), _show(_unblock(n["body"])))
     if k == "block":
         return "{ %s }" % "; ".join(_show(s) for s in n["stmts"])
     if k == "let":
@@ -157,7 +164,7 @@ def _show(n):
     if k == "match":
         return "match %s { %s }" % (
             _show(n["e"]),
-            ", ".join("%s => %s" % (_show(a["pat"]), _show(a["body"])) for a in n["arms"]),
+            ", ".join("%s => %s" % (_show(a["pat"]), _show(_unblock(a["body"]))) for a in n["arms"]),
         )
     if k == "binary":
         return "%s %s %s" % (_show(n["lhs"]), n["op"], _show(n["rhs"]))
